@@ -1013,7 +1013,7 @@ def reach (nested : Bool) : Nat → List St → List St
     reach nested fuel (next.foldl (fun a s => if s ∈ a then a else a ++ [s]) acc)
 
 /-- The code as it is takes the read lock twice. -/
-def nestedInCode : Bool := true
+def nestedInCode : Bool := false   -- since the fix: commit in /repo (TeardownEnvironment no longer wraps environment() in its own RLock); `true` = the code before it
 
 end Rw
 
